@@ -4,6 +4,7 @@
 //! usage: kv-harness run <PROP> <quick|thorough> <seed> <outdir> [shards]
 //!        kv-harness replay <PROP> <law> <f64 args as hex bits or decimal>...
 mod util;
+mod geom;
 include!(concat!(env!("OUT_DIR"), "/mods.rs"));
 
 use util::{Out, Rng};
